@@ -177,6 +177,8 @@ inductive HistOp where
   /-- a forward pass of the SuperNet: softmax / hard softmax keep the arg-max of `alpha`; Gumbel
   noise (training mode) leaves an undetermined sample -/
   | forward (train : Bool)
+  /-- an (earlier) `export()`: leaves the SuperNet as it was -/
+  | exported
 deriving Repr
 
 /-- the op overwrites an `alpha` -/
@@ -192,6 +194,12 @@ def stepComb (op : HistOp) (c : String) (s : CombSt) : CombSt :=
   | .setHard h => { s with hard := h }
   | .setTemp => s
   | .forward train => { s with sampled := if train && s.gumbel then none else some (argmax s.alpha) }
+  | .exported => s
+
+/-- the op is an `export()` -/
+def HistOp.isExport : HistOp → Bool
+  | .exported => true
+  | _ => false
 
 def histStep (st : HistSt) (op : HistOp) : HistSt := st.map fun p => (p.1, stepComb op p.1 p.2)
 
